@@ -220,6 +220,8 @@ def routes_for(text, which):
             return None
         with open(p, encoding="utf-8", newline="") as f:
             c = f.read()
+        # a client previews an amendment of the written file first (dry run): nothing it previews may show up afterwards
+        run_async(st["w"].execute(target_path=p, changes={"PREVIEW_ONLY": [1, 2], "META.PREVIEW": "x"}, corrections_only=True))
         # second leg of the statement: normalize mode on the written file must report no change
         r2 = run_async(st["w"].execute(target_path=p))
         if r2.get("status") != "success" or r2.get("diff") != "No changes" or r2.get("canonical_hash") != r.get("canonical_hash"):
